@@ -12,7 +12,7 @@ end cloudconst
 namespace Skel
 def CopyWithControl : List String := ["counter.Add", "src.Read", "waitLimiterN", "dst.Write", "counter.Add", "counter.Add"]
 def runBridgeLifecycle : List String := ["bridge.Close", "bridge.Start", "bridgeLock.Lock", "delete", "bridgeLock.Unlock", "tunnelRouting.RemoveWaitingTunnel"]
-def waitLimiterN : List String := ["limiter.Burst", "limiter.WaitN"]
+def waitLimiterN : List String := ["limiter.Burst", "limiter.WaitN", "limiter.WaitN"]
 end Skel
 
 end Gen
